@@ -51,7 +51,7 @@ def slices(tier):
 # (B) forms
 # ---------------------------------------------------------------------------------------------
 
-FORM_OPS_QUICK = ["derivative", "adjoint", "action", "lhs", "rhs", "functional", "replace", "neg", "scale", "expand_derivatives", "lower", "renumber", "scaling", "restrictions", "remeasure", "signature", "hash", "repr", "form_data", "form_data_opts", "estimate_degree", "add", "sub", "eq", "equals"]
+FORM_OPS_QUICK = ["derivative", "adjoint", "action", "lhs", "rhs", "functional", "replace", "neg", "scale", "unit_scale", "expand_derivatives", "lower", "renumber", "scaling", "restrictions", "remeasure", "signature", "hash", "repr", "form_data", "form_data_opts", "estimate_degree", "add", "sub", "eq", "equals"]
 
 
 class FormWorld:
@@ -83,6 +83,8 @@ class FormWorld:
             ("F", 1, ufl.inner(ufl.grad(w), ufl.grad(v)) * dx + w**2 * v * dx(metadata=self.md[0]) - f * v * dx),
             ("eq", 2, u * v * dx + ufl.inner(ufl.grad(u), ufl.grad(v)) * dx - f * v * dx),
             ("dg", 2, ufl.jump(u) * ufl.jump(v) / ufl.avg(h) * dS + ufl.inner(ufl.avg(ufl.grad(u)), n("+")) * ufl.jump(v) * dS + u * v * dx),
+            # a weighted sum of form-like objects that are not Forms (FormSum of cofunctions)
+            ("fs", 1, 2 * ufl.Cofunction(S.dual()) + 3 * ufl.Cofunction(S.dual())),
         ]
 
     def snapshot(self, x):
@@ -94,6 +96,10 @@ class FormWorld:
             for itg in x.integrals():
                 itgs.append((itg.integral_type(), repr(itg.subdomain_id()), copy.deepcopy(itg.metadata()), repr(itg.integrand()), id(itg.integrand())))
             return ("form", repr(x), hash(x), x.signature(), tuple(repr(a) for a in x.arguments()), tuple(repr(c) for c in x.coefficients()), tuple(repr(c) for c in x.constants()), itgs)
+        from ufl.form import BaseForm
+
+        if isinstance(x, BaseForm):
+            return ("baseform", repr(x), hash(x), tuple(repr(a) for a in x.arguments()), tuple(repr(w) for w in getattr(x, "weights", lambda: ())()))
         return ("other", repr(x))
 
     def apply(self, op, args):
@@ -130,6 +136,8 @@ class FormWorld:
             return -x
         if op == "scale":
             return 2 * x
+        if op == "unit_scale":
+            return 1.0 * x
         if op == "expand_derivatives":
             return expand_derivatives(x)
         if op == "lower":
@@ -203,7 +211,7 @@ PROPERTY AppendOnly
 
 def replay_history(ctx, hist, sample=False):
     """Returns number of steps executed."""
-    from ufl.form import Form
+    from ufl.form import BaseForm, Form
 
     fw = FormWorld()
     pool = [f for _, _, f in fw.init]
@@ -240,9 +248,9 @@ def replay_history(ctx, hist, sample=False):
         if fw.md != fw.md0:
             ctx.violation(f"C27:user-metadata-dict-mutated:{st['op']}", f"{st['op']} changed a metadata dict passed to a measure: {fw.md0} -> {fw.md}", {"kind": "form-history", "hist": hist[: k + 1], "what": "user-metadata"})
             fw.md0 = copy.deepcopy(fw.md)
-        if isinstance(r, Form):
+        if isinstance(r, BaseForm):
             try:
-                if len(r.arguments()) != st["ar"] and not r.empty():
+                if isinstance(r, Form) and len(r.arguments()) != st["ar"] and not r.empty():
                     ctx.count(f"arity_differs_from_model:{st['op']}")
                 sn = fw.snapshot(r)
             except Exception:  # noqa: BLE001 - the result is not a well-formed form: nothing to track
@@ -264,6 +272,8 @@ def _arity_mismatch():
 
 def _diff(a, b):
     names = ["kind", "repr", "hash", "signature", "arguments", "coefficients", "constants", "integrals"]
+    if a[0] == "baseform":
+        names = ["kind", "repr", "hash", "arguments", "weights"]
     for n, x, y in zip(names, a, b):
         if x != y:
             return n
